@@ -1056,9 +1056,19 @@ class Watcher(object):
                     self.spawn_process()
                     yield tornado_sleep(self.warmup_delay)
             else:
+                old_pids = set(self.processes)
                 for i in range(self.numprocesses):
                     self.spawn_process()
                 yield self.manage_processes()
+                # manage_processes only counts: when a replacement died
+                # meanwhile an old process has been kept in its place
+                kept = [process for pid, process in self.processes.items()
+                        if pid in old_pids]
+                if kept:
+                    yield [self.kill_process(process) for process in kept]
+                    for process in kept:
+                        self.reap_process(process.pid)
+                    yield self.manage_processes()
         self.notify_event("reload", {"time": time.time()})
         logger.info('%s reloaded', self.name)
 
